@@ -22,7 +22,7 @@ func init() {
 		ID:    "C18",
 		Title: "Built-in functions obey their algebraic contracts for all arguments",
 		Level: "exploration",
-		Rule: "also: open-ended DATERANGE, CONSTANT inside nested queries next to other options, a defaults map shared between queries, UNWIND over arrays with spare capacity and calls that share their first group. phase 'big': FIRST / LAST / ELEMENTAT over arrays of more than a million elements (indexes whose float text carries an exponent). each case = one built-in function (DECODE/ENCODE, HASH, FIRST, LAST, ELEMENTAT, UNWIND, ARRAY, CONCAT, IF, TO_LOWER, TO_UPPER, CHANGETYPE, DATERANGE, CONSTANT, and every fixed-arity function with arity +-1) x random arguments of every JSON scalar kind and arrays thereof (empty, nested, with NULLs), " +
+		Rule: "IF with computed branches and a NULL condition; CONCAT / CHANGETYPE texts of numbers by their decimal text (1e6 and more, 1e-7). also: open-ended DATERANGE, CONSTANT inside nested queries next to other options, a defaults map shared between queries, UNWIND over arrays with spare capacity and calls that share their first group. phase 'big': FIRST / LAST / ELEMENTAT over arrays of more than a million elements (indexes whose float text carries an exponent). each case = one built-in function (DECODE/ENCODE, HASH, FIRST, LAST, ELEMENTAT, UNWIND, ARRAY, CONCAT, IF, TO_LOWER, TO_UPPER, CHANGETYPE, DATERANGE, CONSTANT, and every fixed-arity function with arity +-1) x random arguments of every JSON scalar kind and arrays thereof (empty, nested, with NULLs), " +
 			"passed both as SQL literals and as column references of a one-row table; indices from {-2,-1,0,n-1,n,n+3}; bases / algorithms / type names incl. unknown ones. The value returned by the real `SELECT f(args) AS v ...` (and its error-ness) is compared with a per-function reference implementation. " +
 			"Non-trivial = every in-domain case (each compares a computed value or an expected error); distinct = distinct (function, arguments).",
 		Assumptions: []string{
